@@ -7,12 +7,13 @@ CONSTANTS
   N0 = 0
   DCAP = 2
   MaxNodes = 6
-  MaxTabs = 3
-  STRIDE = 1
+  MaxTabs = 2
+  STRIDE = 2
   MAXRES = 100
   STAMPCHECK = TRUE
   ACSTAMPCHECK = TRUE
   TRAVOFF = 0
+  RETAINCHECK = TRUE
 INVARIANTS Linearizable NoDeadlock ResizeSafe QuiescentOK ReadersNeverBlock IterWeak GhostOK
 PROPERTY NeverShrinks
 VIEW view
